@@ -84,7 +84,7 @@ SPECS = [
         subst={"self.num_timesteps": "num_timesteps", "env.num_envs": "num_envs"}, outputs=[("num_timesteps", "Z")],
     ),
     dict(
-        name="onpol_nsteps_inc", file=_ON, qual="OnPolicyAlgorithm.collect_rollouts", start=r"^n_steps \+= 1", end=None,
+        name="onpol_nsteps_inc", file=_ON, qual="OnPolicyAlgorithm.collect_rollouts", start=r"^n_steps \+= ", end=None,
         inputs=[("n_steps", "Z")], outputs=[("n_steps", "Z")],
     ),
     dict(
@@ -93,13 +93,13 @@ SPECS = [
     ),
     # emission points: off-policy loops
     dict(
-        name="offpol_count", file=_OFF, qual="OffPolicyAlgorithm.collect_rollouts", start=r"^self\.num_timesteps \+= ", end=r"^num_collected_steps \+= 1",
+        name="offpol_count", file=_OFF, qual="OffPolicyAlgorithm.collect_rollouts", start=r"^self\.num_timesteps \+= ", end=r"^num_collected_steps \+= ",
         inputs=[("num_timesteps", "Z"), ("num_envs", "Z"), ("num_collected_steps", "Z")],
         subst={"self.num_timesteps": "num_timesteps", "env.num_envs": "num_envs"},
         outputs=[("num_timesteps", "Z"), ("num_collected_steps", "Z")],
     ),
     dict(
-        name="offpol_episode_inc", file=_OFF, qual="OffPolicyAlgorithm.collect_rollouts", start=r"^num_collected_episodes \+= 1", end=None,
+        name="offpol_episode_inc", file=_OFF, qual="OffPolicyAlgorithm.collect_rollouts", start=r"^num_collected_episodes \+= ", end=None,
         inputs=[("num_collected_episodes", "Z")], outputs=[("num_collected_episodes", "Z")],
     ),
     dict(
